@@ -1361,6 +1361,13 @@ where
             let mut dropped_any = false;
 
             loop {
+                // Expired subscriptions are removed at the top of the outer loop only. A run of
+                // failing reports (each attempt can take many seconds, longer than its retry
+                // back-off) must not postpone that: go back there as soon as one has expired.
+                if self.state.subscriptions.any_expired(Instant::now()) {
+                    break;
+                }
+
                 // Reporting to the previous subscriptions may have taken a while (several
                 // round trips, retransmissions): stamp each report with the time it really
                 // starts at, or the next one would be allowed earlier than `min_int` after it.
